@@ -6,7 +6,8 @@ sources).  The per-function obligations (`allocFailSafe cfg_f = true`, `releaseS
 true`, and the argument-contract theorems `contract_f`) are in `Bee2V/Gen/C09Obl.lean`.
 
 * `allocFailSafe_sound` — on EVERY path: a blob whose allocation failed is never used before it
-  is re-assigned (`NoNullUse`); and if some blobCreate/blobResize on the path returned 0 then the
+  is re-assigned (`NoNullUse`); and if some blobCreate/blobResize on the path returned 0
+  (`IsAllocFailure`: events allocFail, resizeFail, resizeKeep) then the
   function returns a value known to differ from ERR_OK and every blob it did obtain has been
   closed (`ClosesAll`: nothing is left allocated).
 * `verifyFirst_sound` — on every path that calls a verification routine (MAC / key-token
@@ -23,7 +24,7 @@ open Bee2V.C15
 theorem allocFailSafe_sound (c : Cfg) (h : allocFailSafe c = true) :
     ∀ (tr : List Ev) (s' : St) (r : CS), Exec c St.init tr s' (.ret r) →
       NoNullUse tr ∧
-      ((∃ v, Ev.allocFail v ∈ tr ∨ Ev.resizeFail v ∈ tr) → r = .bad ∧ ClosesAll tr) := by
+      ((∃ e ∈ tr, IsAllocFailure e) → r = .bad ∧ ClosesAll tr) := by
   intro tr s' r hx
   simp only [allocFailSafe, Bool.and_eq_true, List.all_eq_true] at h
   have hm := reach_sound hx [St.init] h.1 (by simp)
@@ -32,8 +33,8 @@ theorem allocFailSafe_sound (c : Cfg) (h : allocFailSafe c = true) :
   have hf := exec_fold hx
   subst hf
   refine ⟨noNullUse_of_fold tr St.init hp.1, ?_⟩
-  rintro ⟨v, hv⟩
-  have hfail := failed_of_mem tr St.init v hv
+  intro hv
+  have hfail := failed_of_mem tr St.init hv
   rcases hp.2 with h0 | ⟨⟨h1, h2⟩, h3⟩
   · rw [hfail] at h0; cases h0
   · exact ⟨h1, closesAll_of_fold tr St.init h2 h3⟩
